@@ -30,7 +30,7 @@ pub static DEF: PropDef = PropDef {
 	assumptions: &[
 		"per-document output lengths come from xt's own translation of each document alone (as in C03)",
 		"memory is measured with a counting global allocator on the simulation thread; harness bookkeeping (event log, consumer byte log) is excluded by an explicit guard",
-		"memory bounds used: sanity bound peak < 4 MiB + 64*max_document (the YAML path legitimately holds ~20x the text of the document being parsed); deciding bound peak(N) - peak(N/4) < 64 KiB + 2*max_document",
+		"memory bounds used: sanity bound peak < 4 MiB + 64*max_document (the YAML path legitimately holds ~20x the text of the document being parsed); deciding test: peak(N) - peak(N/4) > 64 KiB + 2*max_document AND both increments peak(N/2)-peak(N/4), peak(N)-peak(N/2) are at least half the input bytes added (growth with the stream, not a one-time jump between code paths)",
 	],
 	expected_probes: &["policy.doc_per_read", "policy.k_docs_per_read", "policy.fraction", "policy.bytes", "policy.random", "detect", "lag0", "lag1", "big_docs", "w.short", "memory_growth_checked"],
 	needs_bins: false,
@@ -278,23 +278,32 @@ fn eval(case: &J) -> Eval {
 		ev.violate(format!("memory/absolute/{tag}"), format!("peak live heap attributable to xt is {peak} bytes for a {}-byte stream of {n} documents (largest document {max_doc} bytes; bound {abs_bound})", bytes.len()));
 	}
 	if n >= 40 {
-		// Same stream cut after N/4 documents.
-		let cut = docs[n / 4 - 1].1;
-		let mut s2 = sc.clone();
-		s2.calls[0].bytes.truncate(cut);
-		if f == Fmt::Json {
-			s2.calls[0].bytes.push(b'\n');
-		}
-		let o2 = exec::run_with(&s2, Opts { drop_out: true, lean: true, measure: true, ..Opts::default() });
-		ev.execs += 1;
-		if o2.verdict(0).is_ok() {
-			let p2 = o2.mem.peak.max(0) as usize;
-			let growth = peak.saturating_sub(p2);
-			let max_q = docs[..n / 4].iter().map(|d| d.1 - d.0).max().unwrap_or(0);
+		// The same stream cut after N/4 and after N/2 documents. Retained memory that grows
+		// with the stream shows in BOTH increments, roughly in proportion to the bytes
+		// added; a one-time jump (e.g. detection reading a short stream to EOF and
+		// switching to the slice path, whose constant differs) shows in at most one.
+		let measure = |upto: usize, ev: &mut Eval| -> Option<(usize, usize)> {
+			let cut = docs[upto - 1].1;
+			let mut s2 = sc.clone();
+			s2.calls[0].bytes.truncate(cut);
+			if f == Fmt::Json {
+				s2.calls[0].bytes.push(b'\n');
+			}
+			let o2 = exec::run_with(&s2, Opts { drop_out: true, lean: true, measure: true, ..Opts::default() });
+			ev.execs += 1;
+			o2.verdict(0).is_ok().then(|| (o2.mem.peak.max(0) as usize, cut))
+		};
+		if let (Some((p4, b4)), Some((p2, b2))) = (measure(n / 4, &mut ev), measure(n / 2, &mut ev)) {
 			ev.count("memory_growth_checked", 1);
-			// Only comparable when the largest document is in both parts.
-			if max_q == max_doc && growth > (64 << 10) + 2 * max_doc {
-				ev.violate(format!("memory/growth/{tag}"), format!("peak live heap grows with stream length: {p2} bytes for the first {} documents, {peak} bytes for all {n} (largest document {max_doc} bytes)", n / 4));
+			let max_q = docs[..n / 4].iter().map(|d| d.1 - d.0).max().unwrap_or(0);
+			let bound = (64 << 10) + 2 * max_doc;
+			let g_total = peak.saturating_sub(p4);
+			let g_first = p2.saturating_sub(p4);
+			let g_second = peak.saturating_sub(p2);
+			let (added_first, added_second) = (b2 - b4, bytes.len() - b2);
+			// Only comparable when the largest document is in every part.
+			if max_q == max_doc && g_total > bound && g_first * 2 >= added_first && g_second * 2 >= added_second {
+				ev.violate(format!("memory/growth/{tag}"), format!("peak live heap grows with stream length: {p4} bytes for the first {} documents ({b4} bytes), {p2} for {} ({b2} bytes), {peak} for all {n} ({} bytes); largest document {max_doc} bytes", n / 4, n / 2, bytes.len()));
 			}
 		}
 	}
